@@ -676,7 +676,10 @@ func (s *seq) finish(cc *crashCtx) {
 		}
 		r := recoverOn(root, cc.lo)
 		os.RemoveAll(root)
-		toModel := !(k > 0 && m.kind() == "meta")
+		// not for the model: torn meta writes (the protobuf bytes are opaque there), and on the
+		// type-1 wrapper a new file cut inside its first slot (FileWrap slices its pooled buffer
+		// beyond the file's length: what it reads there depends on earlier files of the process)
+		toModel := !(k > 0 && (m.kind() == "meta" || (m.kind() == "fill" && k < 32 && s.rw == 1)))
 		line := cc.armedLine
 		if toModel {
 			line = s.emit(fmt.Sprintf("crash %d %d %d", j, k, cc.lo), r.answer)
@@ -722,7 +725,7 @@ func (s *seq) finish(cc *crashCtx) {
 			}
 			n := s.tornPer
 			if m.kind() == "slot" {
-				n += 2
+				n++
 			}
 			for t := 0; t < n && len(cand) > 0; t++ {
 				x := s.r.Intn(len(cand))
